@@ -15,6 +15,8 @@ CONSTANTS
   RestoreOnMismatch = TRUE
   FixPosZero = FALSE
   ExcusePosZero = TRUE
+  MaxCrash = 0
+  RestoreRecovers = TRUE
   Emit = FALSE
 VIEW view
 INVARIANTS TypeOK ChainContig Progress RetentionSafe HwmAcked EmitInv
